@@ -37,11 +37,29 @@ def run_check(repo, prop, rule, base):
     return r.returncode, r.stdout + r.stderr
 
 
+VARIANT = None     # --variant: apply the spelling generators to the copy before the mutant
+
+
+def apply_variant(d):
+    """all condition-spelling generators at once (Appendix D, fourth batch): the mutants must still
+    be detected on a tree that spells its tests the other way round"""
+    import invert_ifs, swap_eq, swap_rel, cxx_idioms, py_swap_cmp
+    import io, contextlib
+    with contextlib.redirect_stdout(io.StringIO()):
+        invert_ifs.main(d, 'cxx')
+        swap_eq.main(d)
+        swap_rel.main(d)
+        cxx_idioms.main(d)
+        py_swap_cmp.main(d)
+
+
 def one(mu, base):
     t0 = time.time()
     d = os.path.join(base, mu['id'])
     os.makedirs(d)
     copy_repo(d)
+    if VARIANT:
+        apply_variant(d)
     # edits: (old, new) in the mutant's file, or (file, old, new) for a second file
     edits = [(mu['file'], mu['old'], mu['new'])] + [
         (mu['file'],) + tuple(e) if len(e) == 2 else tuple(e) for e in mu.get('more', [])]
@@ -51,6 +69,8 @@ def one(mu, base):
         n = s.count(old)
         if n != 1:
             shutil.rmtree(d, ignore_errors=True)
+            if VARIANT:
+                return {'id': mu['id'], 'ok': None, 'why': 'pattern gone in the variant'}
             return {'id': mu['id'], 'ok': False, 'why': 'pattern matches %d times in %s' % (n, fname)}
         open(p, 'w').write(s.replace(old, new))
     rc, out = run_check(d, mu['prop'], None, base)
@@ -68,8 +88,12 @@ def one(mu, base):
 
 
 def main():
+    global VARIANT
     args = sys.argv[1:]
     jobs = 6
+    if '--variant' in args:
+        args.remove('--variant')
+        VARIANT = True
     if '-j' in args:
         i = args.index('-j')
         jobs = int(args[i + 1])
@@ -94,12 +118,20 @@ def main():
     finally:
         shutil.rmtree(base, ignore_errors=True)
     okc = 0
+    skipped = [r for r in results if r['ok'] is None]
+    results = [r for r in results if r['ok'] is not None]
     for r in results:
         okc += bool(r['ok'])
         print('%-44s %s %s' % (r['id'], 'FIRES ' if r['ok'] else 'MISSED', r.get('hit') or r.get('why')))
         if r.get('others'):
             print('      also: %s' % r['others'])
-    print('%d of %d mutants detected' % (okc, len(results)))
+    print('%d of %d mutants detected%s' % (okc, len(results),
+                                          (' on the respelt variant (%d mutants not applicable: their '
+                                           'site is spelt differently there)' % len(skipped)) if VARIANT else ''))
+    if VARIANT:
+        json.dump({'results': results, 'skipped': [r['id'] for r in skipped]},
+                  open(os.path.join(HERE, 'last_run_variant.json'), 'w'), indent=1)
+        return 0 if okc == len(results) else 1
     if not args:
         json.dump({'results': results, 'clean_silent': not bad_clean},
                   open(os.path.join(HERE, 'last_run.json'), 'w'), indent=1)
